@@ -8,7 +8,9 @@ import (
 )
 
 // identifiers are case sensitive: "Document" and "document" are ordinary element identifiers, only "DOCUMENT" is the document's own
-var spdxIDs = []string{"a", "b", "c", "pkg-1", "lib.so.1", "File-A", "n0", "x.y-z", "Z9", "Document", "document", "DOCUMENT-2"}
+var spdxIDs = []string{"a", "b", "c", "pkg-1", "lib.so.1", "File-A", "n0", "x.y-z", "Z9", "Document", "document", "DOCUMENT-2",
+	// the special relationship targets are words, not identifiers: elements may be called like them
+	"NONE", "NOASSERTION"}
 
 var plainTexts = []string{"x", "foo", "bar 1.0", "Apache-2.0", "MIT", "héllo wörld", "日本語", "a b  c", "(c) 2024 X", "v1.2.3", "https://example.com/p"}
 
